@@ -59,7 +59,7 @@ def classify(stream, line, exp):
         return name + ' ' + ' '.join(exp.split(' ')[:2])[:40]
     if stream in ('scan', 'scanfrag', 'compile', 'parse', 'parsekinds'):
         return ' '.join(exp.split(' ')[:2]) if exp.startswith('err') else 'ok'
-    if stream == 'json':
+    if 'json' in stream:
         return ' '.join(x.strip() for x in exp.split(' ; ')[1:]) + (' nonfinite' if has_nonfinite_literal(line) else '')
     if stream == 'cmp':
         return 'cmp ' + t[0]
@@ -83,12 +83,37 @@ def has_nonfinite_literal(line):
         if (int(m.group(1), 16) >> 52) & 0x7ff == 0x7ff: return True
     return False
 
+def json_depth(line):
+    """nesting depth (objects + arrays) of the JSON that serde writes for the tree on a `json` protocol line"""
+    import shrink
+    t = line.split(' ')
+    def vdepth(tokens, i):
+        tok = tokens[i]
+        if tok[0] == 'A':
+            n = int(tok[1:]); j = i + 1; d = 0
+            for _ in range(n):
+                dd, j = vdepth(tokens, j); d = max(d, dd)
+            return 1 + d, j
+        return 0, i + 1
+    def depth(node):
+        kind, head, cs = node
+        if kind == 'L':
+            d, _ = vdepth(head, 1); return 1 + d
+        if kind == 'V': return 1
+        if kind in ('R', 'C'): return 2 + max([depth(c) for c in cs] or [0])
+        return 1 + max(depth(c) for c in cs)
+    try:
+        e, _ = shrink.parse_expr(t, 1)
+        return depth(e)
+    except Exception:
+        return 0
+
 def law_json_same(lines, exp):
     """C12 as stated: both round-trip routes reproduce the tree"""
     for k, (line, e) in enumerate(zip(lines, exp)):
         if not line.startswith('json '): continue
         parts = [x.strip() for x in e.split(' ; ')]
-        if len(parts) != 3 or parts[1] != 'same' or parts[2] != 'same':
+        if len(parts) < 3 or parts[1] != 'same' or parts[2] != 'same':
             yield (k, line, e, 'round trip through the JSON value and through JSON text yields the identical tree (same ; same)')
 
 def law_c05(lines, exp):
@@ -160,7 +185,10 @@ KNOWN_PREDICATES = {
     # D3b: slice::sort detects the inconsistent order and panics
     'C09-sort-unsafe-collection': lambda stream, line, exp, spec: (stream.startswith('call') and line.endswith(' #unsafe') and exp.strip() in ('panic', 'crash')),
     # D9: JSON has no representation for NaN / infinities; serde_json writes null, the value visitor rejects null
-    'C12-nonfinite-literal': lambda stream, line, exp, spec: stream.startswith('json') and has_nonfinite_literal(line),
+    'C12-nonfinite-literal': lambda stream, line, exp, spec: 'json' in stream and has_nonfinite_literal(line),
+    # serde_json's default recursion limit: text deeper than 127 nested containers cannot be parsed back
+    'C12-text-depth-limit': lambda stream, line, exp, spec: ('json' in stream and [x.strip() for x in exp.split(' ; ')][1:3] == ['same', 'err']
+                                                              and json_depth(line) >= 128),
 }
 def law_stable(lines, exp):
     for k, (line, e) in enumerate(zip(lines, exp)):
@@ -180,6 +208,15 @@ def law_tmrange(lines, exp):
                 try: first = bytes.fromhex(e.split(' first ')[1].strip()).decode()
                 except Exception: pass
             yield (k, line, e + (' (' + first + ')' if first else ''), 'viol 0: every date / millisecond / combination of the range encodes exactly and decodes to its components')
+
+def law_scanrange(lines, exp):
+    for k, (line, e) in enumerate(zip(lines, exp)):
+        if not e.startswith('viol 0 '):
+            first = ''
+            if ' first ' in e:
+                try: first = bytes.fromhex(e.split(' first ')[1].strip()).decode()
+                except Exception: pass
+            yield (k, line, e + (' (' + first + ')' if first else ''), 'viol 0: an identifier keeps its exact spelling; a word one letter away from a keyword is not that keyword')
 
 def law_script_c05(lines, exp):
     # validated script (all names resolve): a value before optimize is the identical value after
@@ -204,5 +241,5 @@ def law_script_c11(lines, exp):
         # no variable/call in result position can be told from the protocol line only for plain operator roots; the chkbool stream has the precise proviso
     return []
 
-LAWS = {'script_c05': law_script_c05, 'script_c10': law_script_c10, 'tmrange': law_tmrange, 'c10_dcall': law_c10_dcall, 'stable': law_stable, 'json_same': law_json_same, 'c05': law_c05, 'c06': law_c06, 'c10': law_c10, 'c10_opt': law_c10_opt, 'c11': law_c11,
+LAWS = {'scanrange': law_scanrange, 'script_c05': law_script_c05, 'script_c10': law_script_c10, 'tmrange': law_tmrange, 'c10_dcall': law_c10_dcall, 'stable': law_stable, 'json_same': law_json_same, 'c05': law_c05, 'c06': law_c06, 'c10': law_c10, 'c10_opt': law_c10_opt, 'c11': law_c11,
         'same': law_expect('same'), 'ok': law_ok, 'no_crash': law_no_crash}
